@@ -23,6 +23,10 @@ def check(run):
                     if before == 0 and during > 0:
                         continue      # "during" needs somebody running
                     scs.append(dict(arity=arity, before=before, during=during, after=after))
+    # the same with result types that are (non-nil) error values: Once1[error], Once2[int, error], Once3[int, int, error]
+    for arity in (1, 2, 3):
+        for before, during, after in ((1, 0, 2), (2, 1, 1), (1, 2, 2), (3, 0, 1)):
+            scs.append(dict(arity=arity, before=before, during=during, after=after, err=True))
     for i in range(5 if q else 40):     # many simultaneous callers
         scs.append(dict(arity=run.rng.choice([1, 2, 3]), before=run.rng.randint(5, 9), during=run.rng.randint(0, 4), after=run.rng.randint(0, 3)))
     # under the race detector: the effect written inside the action must be ordered before every caller's read
